@@ -826,6 +826,11 @@ impl Scanner for EntryScanner<'_> {
                                 .expect("failed to make root name"));
                         }
                     }
+                    // Only the root label is empty and that was dealt with
+                    // above: two consecutive dots are an error.
+                    if write == start + 1 {
+                        return Err(EntryError::bad_name());
+                    }
                     if write > 254 {
                         return Err(EntryError::bad_name());
                     }
